@@ -221,9 +221,10 @@ class FailingSource(object):
     len(rows) means: raise at exhaustion (instead of StopIteration);
     fail_at is None: never fail."""
 
-    def __init__(self, rows, fail_at):
+    def __init__(self, rows, fail_at, exc=None):
         self.rows = rows
         self.fail_at = fail_at
+        self.exc = exc or SourceFailure
 
     def __iter__(self):
         return self._gen()
@@ -232,11 +233,11 @@ class FailingSource(object):
         i = 0
         for r in self.rows:
             if self.fail_at is not None and i == self.fail_at:
-                raise SourceFailure('injected at %d' % i)
+                raise self.exc('injected at %d' % i)
             yield r
             i += 1
         if self.fail_at is not None and self.fail_at >= i:
-            raise SourceFailure('injected at exhaustion')
+            raise self.exc('injected at exhaustion')
 
 
 def snapshot(obj):
